@@ -15,6 +15,7 @@ import random
 import numpy
 import puan
 import puan.modules.configurator as cc
+from puan.logic.plog import Any as pgAny
 import puan.ndarray as pnd
 
 from .. import adapters, monitor, recipes, refmodel
@@ -27,7 +28,7 @@ RULE = ("cases: configurators over 3-6 boolean items with 1-3 rules (plain and d
         "keys; distinct by digest of (recipe, priorities)"
         ' Also: configurators read from harness-written JSON, defaulted rules nested under plain connectives, a rule replaced in place between two selects.')
 BUDGET = {"quick": (12, 780, 90), "thorough": (16, 2000, 1200)}
-MANDATORY = ["judged:pair-order", "judged:argmax-set", "judged:default-prios", "count:with-defaults", "count:with-user-prios",
+MANDATORY = ["count:many-levels(weights beyond 2^53)", "judged:pair-order", "judged:argmax-set", "judged:default-prios", "count:with-defaults", "count:with-user-prios",
              "count:user-prio-on-helper", "count:negative-user-prio", "count:ties-in-user-prios", "count:built-from-json", "count:select-on-unpacked-polyhedron"]
 
 
@@ -170,6 +171,10 @@ def install(ctx):
 
 
 def gen_case(rng, tier, ctx, i):
+    if rng.random() < 0.012:
+        # many priority levels with ties over a catalogue of items: the weights pass 2^53 and stay inside 64 bits
+        return {"many_levels": list(rng.choice([(15, 15, 0), (16, 12, 0), (17, 10, 0), (18, 9, 0), (19, 8, 0), (21, 6, 0), (14, 14, 40), (15, 12, 40), (16, 10, 40), (18, 7, 40),
+                                                (14, 13, 100), (15, 11, 100), (17, 8, 100), (19, 6, 100), (12, 10, 0), (10, 8, 40)])), "seed": rng.getrandbits(32)}
     rec = confgen.gen_config(rng)
     case = {"recipe": rec, "seed": rng.getrandbits(32), "nprios": rng.randint(1, 3), "route": rng.choice(["json", "ctor", "ctor", "b64", "ctor"])}
     if rng.random() < 0.2:
@@ -184,7 +189,72 @@ def gen_case(rng, tier, ctx, i):
     return case
 
 
+def run_many_levels(case, ctx):
+    """too many columns to enumerate: the objective the solver receives is judged on hand-made pairs of feasible points, in Python integers"""
+    L, T, U = case["many_levels"]
+    rng = random.Random(case["seed"])
+    n = L * T
+    items = ["x%03d" % k for k in range(n + U)]          # the last U items carry no priority of their own (they cost their default -1 each)
+    order = list(range(n + U))
+    rng.shuffle(order)
+    level = {items[j]: pos // T + 1 for pos, j in enumerate(order[:n])}
+    if (U + 2) * (T + 1) ** L >= 2 ** 62:          # the statement's proviso: the weights fit in 64 bits
+        raise monitor.OutOfScope()
+    cfg = cc.StingyConfigurator(pgAny(*items), id="catalogue")
+    rec = {}
+    prios = dict(level)
+    ctx.call("select", lambda: list(cfg.select(prios, solver=confgen.exact_solver_factory(rec))))
+    ids = rec["column_ids"][1:]
+    M = rec["matrix"]
+    w = [int(x) for x in rec["objectives"][0].tolist()]
+    dpv = [int(v) for v in numpy.asarray(rec["polyhedron"].default_prio_vector).tolist()]
+    key = key_fn(ids, dpv, prios)
+    ctx.count("count:many-levels(weights beyond 2^53)")
+
+    def point(sel):
+        p = [1 if (i in sel or i not in items) else 0 for i in ids]       # helper columns (the rule itself) are true whenever something is selected
+        ok = all(sum(int(a) * b for a, b in zip(row[1:], p)) >= int(row[0]) for row in M.tolist())
+        return p if ok else None
+    by_level = {}
+    for i, lv in level.items():
+        by_level.setdefault(lv, []).append(i)
+    pairs = []
+    for k in range(2, L + 1):
+        one = {rng.choice(by_level[k])}
+        below = {i for lv in range(1, k) for i in by_level[lv]}
+        pairs.append((one, below))                                          # one item of a level against everything below it together
+        pairs.append((one | {rng.choice(by_level[k - 1])}, one))
+        a, b = rng.sample(by_level[k], 2)
+        pairs.append(({a}, {b}))                                            # a tie
+    for _ in range(40):
+        pairs.append((set(rng.sample(items, rng.randint(1, 6))), set(rng.sample(items, rng.randint(1, 6)))))
+    free = [i for i in items if i not in level]
+    if free:
+        top = {rng.choice(by_level[L])}
+        pairs.append((top, top | set(free)))                                # unprioritised items only cost
+        pairs.append(({rng.choice(by_level[1])} | set(free), set(free[:1])))
+    bad = None
+    nj = 0
+    for s1, s2 in pairs:
+        p1, p2 = point(s1), point(s2)
+        if p1 is None or p2 is None:
+            continue
+        k1, k2 = key(p1), key(p2)
+        v1, v2 = sum(a * b for a, b in zip(w, p1)), sum(a * b for a, b in zip(w, p2))
+        nj += 1
+        if (k1 > k2) != (v1 > v2) or (k1 == k2) != (v1 == v2):
+            bad = {"selected_1": sorted(s1)[:14], "selected_2_count": len(s2), "levels_1": sorted(level.get(i, 0) for i in s1), "levels_2_max": max(level.get(i, 0) for i in s2),
+                   "w.c1": v1, "w.c2": v2, "key_order": "c1>c2" if k1 > k2 else ("c1==c2" if k1 == k2 else "c1<c2")}
+            break
+    ctx.judged("pair-order", max(nj - 1, 0))
+    ctx.check(nj > 0 and bad is None, "pair-order", lambda: {"many_levels": [L, T, U], "bad": bad, "largest_weight_bits": max(abs(x) for x in w).bit_length(),
+                                                           "objective_dtype": str(rec["objectives"][0].dtype)})
+    ctx.nt(monitor.digest(["many-levels", L, T, U]))
+
+
 def run_case(case, ctx):
+    if case.get("many_levels"):
+        return run_many_levels(case, ctx)
     rng = random.Random(case["seed"])
     clear_caches()
     if case.get("route") == "json":
